@@ -87,7 +87,7 @@ Lemma lockstep_advance : forall p gs d G,
     TI p' gs' (replay_hist G (o_requests o)) /\
     hist_step d (ps_pending p) (local_handles p) gs gs' /\ ps_kinds p' = ps_kinds p /\ spec_step p gs' o p' /\
     Forall (truthful_lt (s_current (ps_sync p')) gs') (adv_frames G (o_requests o)) /\
-    all_confirmed (o_requests o).
+    all_confirmed (o_requests o) /\ sends_adv p gs gs' p' o.
 Proof.
   intros p gs d G HQS HLK Hbnd (HG & HGI & HPN).
   pose proof HLK as (HLKq & HLKl).
@@ -97,7 +97,7 @@ Proof.
   destruct (forallb _ (local_handles p)) eqn:Efa; cbn [negb].
   2:{ exists p, out0, AInvalidRequest, gs. split; [reflexivity|]. split; [exact HQS|]. split; [exact HLK|]. split; [split; [exact HG|split; [exact HGI|exact HPN]]|].
       split; [apply hist_step_refl|]. split; [reflexivity|]. split; [apply spec_step_none; [exact Hsok|reflexivity..]|].
-      split; [constructor|intros r0 []]. }
+      split; [constructor|split; [intros r0 []|intros HO; split; [exact HO|constructor]]]. }
   assert (Hpend : forall h, In h (local_handles p) -> exists pi, assoc_get (ps_pending p) h = Some pi).
   { intros h Hin. rewrite forallb_forall in Efa. specialize (Efa h Hin).
     destruct (assoc_get (ps_pending p) h); [eauto|discriminate]. }
@@ -111,7 +111,7 @@ Proof.
   { apply Forall_forall. intros h Hin. pose proof Hin as Hin2. apply (local_handles_spec p h Hnp) in Hin2.
     destruct Hin2 as (Hr & Hk). split; [lia|]. split; [exact Hk|]. apply Hpend. exact Hin. }
   destruct (register_go_progress false (local_handles p) 0 d p gs HQS (LKx_clean _ HLK) (local_handles_nodup p) Hall)
-    as (p4 & gs4 & E4 & HQS4 & Hcl4 & Hrest4 & Hc4 & HL4 & Hdone4 & Hgrow4 & Hhist4).
+    as (p4 & gs4 & E4 & HQS4 & Hcl4 & Hrest4 & Hc4 & HL4 & Hdone4 & Hgrow4 & Hhist4 & HO4).
   unfold register_local_inputs. rewrite E4. cbn [res_bind].
   destruct (send_ready_outgoing_ok p4 out0) as (p5 & o5 & E5 & O5). rewrite E5. cbn [res_bind].
   pose proof (QS_out_only _ _ _ _ _ _ HQS4 O5) as HQS5.
@@ -358,9 +358,18 @@ Proof.
       apply Forall_forall. intros g3 Hg3. apply In_nth_error in Hg3. destruct Hg3 as (h & Hh).
       destruct (map_fst_nth gs4 gs3 h g3 Hmap3 Hh) as (g4 & Cg & Efst). rewrite <- Efst.
       rewrite Forall_forall in S3, Hcfg. pose proof (S3 g4 (nth_error_In _ _ Cg)). pose proof (Hcfg g4 (nth_error_In _ _ Cg)). subst bk. lia. }
-  split; [|exact HAC2].
-  cbn [with_sync ps_sync]. rewrite Hc3. eapply Forall_impl; [|exact HTR2]. intros fi (Hlt & Ht). split; [exact Hlt|].
-  apply (truthful_map_fst predict gs4 gs3); [exact Hmap3|exact Ht].
+  split; [|split; [exact HAC2|]].
+  { cbn [with_sync ps_sync]. rewrite Hc3. eapply Forall_impl; [|exact HTR2]. intros fi (Hlt & Ht). split; [exact Hlt|].
+    apply (truthful_map_fst predict gs4 gs3); [exact Hmap3|exact Ht]. }
+  (* what went to the remote players *)
+  intros HO.
+  destruct (send_ready_outgoing_out p4 out0 p5 o5 gs4 E5 (HO4 HO) (QS_local_gs predict predict_idem _ _ _ _ _ HQS4)) as (HO5 & rounds & Q1 & Q2).
+  assert (Hrs2 : o_remote_sends o2 = o_remote_sends o5).
+  { destruct (c <=? cf); [apply res_bind_ok in E2; destruct E2 as (pis & _ & E2); injection E2 as _ <-; reflexivity|injection E2 as _ <-; reflexivity]. }
+  split.
+  - intros Hr. change (ps_remotes p5 <> []) in Hr. eapply OI_same; [exact (HO5 Hr)|reflexivity|reflexivity|reflexivity|exact Hmap3].
+  - rewrite (spec_sends_rsends _ _ _ _ _ Es3), Hrs2, Q1. cbn [out0 o_remote_sends app].
+    rewrite (local_handles_rest _ _ Hrest4) in Q2. apply (rounds_ok_ext predict predict_idem _ gs4 gs3 _ Hmap3 Q2).
 Qed.
 
 (* the cells invariant of lockstep mode, as the generic run theorems want it; it carries its own witness of the
@@ -428,12 +437,12 @@ Lemma lockstep_CI_adv : forall p gs g w d p' o r G,
   Forall (fun c => cs_last c + 1 < I32MAX) (ps_status p) -> TI p gs G ->
   exists gs', QSg false w d p' gs' /\ TI p' gs' (replay_hist G (o_requests o)) /\
     hist_step d (ps_pending p) (local_handles p) gs gs' /\ ps_kinds p' = ps_kinds p /\ spec_step p gs' o p' /\
-    Forall (truthful_lt (s_current (ps_sync p')) gs') (adv_frames G (o_requests o)).
+    Forall (truthful_lt (s_current (ps_sync p')) gs') (adv_frames G (o_requests o)) /\ sends_adv p gs gs' p' o.
 Proof.
   intros p gs g w d p' o r G E HQS (-> & _ & HLK & _) _ Hbnd1 HTI.
-  destruct (lockstep_advance p gs d G HQS HLK Hbnd1 HTI) as (p1 & o1 & r1 & gs' & E1 & HQ' & _ & HT' & Hh & Hk & Hss & HTR & _).
+  destruct (lockstep_advance p gs d G HQS HLK Hbnd1 HTI) as (p1 & o1 & r1 & gs' & E1 & HQ' & _ & HT' & Hh & Hk & Hss & HTR & _ & Hsd).
   rewrite E in E1. injection E1 as <- <- <-.
-  exists gs'. split; [exact HQ'|]. split; [exact HT'|]. split; [exact Hh|]. split; [exact Hk|]. split; [exact Hss|exact HTR].
+  exists gs'. split; [exact HQ'|]. split; [exact HT'|]. split; [exact Hh|]. split; [exact Hk|]. split; [exact Hss|split; [exact HTR|exact Hsd]].
 Qed.
 
 Lemma lockstep_CI_frame : forall w p g, CIl w p g -> gframe g = s_current (ps_sync p).
@@ -468,7 +477,7 @@ Proof.
   - injection Es as <-. intros r0 [].
   - assert (Hbnd1 : Forall (fun c => cs_last c + 1 < I32MAX) (ps_status p)).
     { apply Forall_forall. intros s0 Hs0. rewrite forallb_forall in Hok. specialize (Hok s0 Hs0). lia. }
-    destruct (lockstep_advance p gs d (g_hist g) HQS HLK Hbnd1 HTI) as (p1 & o1 & r1 & gs1 & E1 & _ & _ & _ & _ & _ & _ & _ & HAC).
+    destruct (lockstep_advance p gs d (g_hist g) HQS HLK Hbnd1 HTI) as (p1 & o1 & r1 & gs1 & E1 & _ & _ & _ & _ & _ & _ & _ & HAC & _).
     rewrite E1 in Es. cbn [res_bind] in Es. injection Es as <-. exact HAC.
 Qed.
 
@@ -570,6 +579,51 @@ Proof.
     rewrite Forall_forall in HLq. destruct (HLq q (nth_error_In _ _ Eq)) as (A & B & _).
     pose proof (HPN h q (hist, low) Eq Eg B) as Hreach. cbn [fst] in Hreach.
     split; [lia|]. apply (gq_known _ _ _ _ _ _ (HGI h q (hist, low) Eq Eg)); [lia|cbn [fst]; lia|left; exact A].
+Qed.
+
+(* lockstep: what the session sends for its local players is what it simulates for them, and what arrived for a
+   remote player is what it simulates for that player *)
+Theorem lockstep_sends_and_receipts :
+  forall (predict : Z -> Z), (forall x, predict (predict x) = predict x) -> predict 0 = 0 ->
+  forall ops n d kinds eps nspec p outs,
+  0 <= d -> d + 4 <= QLEN -> 0 < n -> Z.of_nat (length kinds) = n -> players_only kinds ->
+  srun_in predict (session_start n 0 false d kinds eps nspec) ops = Ok (p, outs) ->
+  exists g gs, exec_outs 0 (game0 0) outs = Some g /\ QSg false 0 d p gs /\ gframe g = s_current (ps_sync p) /\
+    (forall h hist low f, nth_error gs h = Some (hist, low) -> 0 <= f < s_current (ps_sync p) ->
+       f < hlen hist /\ gvalL (g_hist g) f h = hval hist f) /\
+    rounds_ok (local_handles p) gs (all_sends outs) /\
+    (forall pl f v, In (SRemote pl f v) ops ->
+      exists gh, nth_error gs (Z.to_nat pl) = Some gh /\ 0 <= f < hlen (fst gh) /\ hval (fst gh) f = v) /\
+    (forall pl e gh f, 0 <= pl -> nth_error kinds (Z.to_nat pl) = Some (KRemote e) ->
+      nth_error gs (Z.to_nat pl) = Some gh -> 0 <= f < hlen (fst gh) -> In (SRemote pl f (hval (fst gh) f)) ops) /\
+    ps_kinds p = kinds.
+Proof.
+  intros predict Hi Hz ops n d kinds eps nspec p outs Hd Hcap Hn Hlen Hpl H.
+  set (p0 := session_start n 0 false d kinds eps nspec) in *.
+  pose proof (QS_start_lockstep n d kinds eps nspec Hd Hcap Hn Hlen Hpl) as HQS0.
+  pose proof (TI_start predict Hi Hz n 0 d kinds eps nspec) as HTI0.
+  assert (HCI0 : CIl predict 0 p0 (game0 0)).
+  { split; [reflexivity|]. split; [apply JI_start; lia|]. split; [apply LKx_start|].
+    exists (repeat ([], 0) (Z.to_nat n)), d. split; [exact HQS0|exact HTI0]. }
+  destruct (run_sends_g predict Hi Hz false (CIl predict) (lockstep_CI_step predict Hi Hz) (lockstep_CI_adv predict Hi)
+              (lockstep_CI_frame predict) ops p0 _ (game0 0) 0 d HQS0 HCI0 HTI0 (OI_start predict Hi false n 0 d kinds eps nspec))
+    as [E|(p' & outs' & gs & g & E1 & Ex & HQS & HCI & (HG & HGI & HPN) & _ & _ & Hk & Hr & Hdl & Hcv)]; [congruence|].
+  rewrite H in E1. injection E1 as <- <-.
+  exists g, gs. split; [exact Ex|]. split; [exact HQS|].
+  destruct HCI as (_ & HJ & (HLq & _) & _).
+  split; [exact (ji_frame _ _ _ HJ)|]. split; [|split; [|split; [exact Hdl|split; [|exact Hk]]]].
+  3:{ intros pl e gh f Hpl0 Hkp Ag Hf.
+      assert (Hl0 : (Z.to_nat pl < Z.to_nat n)%nat).
+      { assert (nth_error kinds (Z.to_nat pl) <> None) as X by congruence. apply nth_error_Some in X. lia. }
+      apply (Hcv pl e ([], 0) gh f Hpl0); [exact Hkp| |exact Ag|cbn [fst]; unfold hlen in *; cbn [length]; lia].
+      apply nth_error_repeat. exact Hl0. }
+  - intros h hist low f Eg Hf.
+    pose proof (qs_qs _ _ _ _ HQS) as HQ. pose proof (QsI_length _ _ _ _ HQ) as Hlq.
+    destruct (nth_error_some_len (s_queues (ps_sync p)) gs h (hist, low) Hlq Eg) as (q & Eq).
+    rewrite Forall_forall in HLq. destruct (HLq q (nth_error_In _ _ Eq)) as (A & B & _).
+    pose proof (HPN h q (hist, low) Eq Eg B) as Hreach. cbn [fst] in Hreach.
+    split; [lia|]. apply (gq_known _ _ _ _ _ _ (HGI h q (hist, low) Eq Eg)); [lia|cbn [fst]; lia|left; exact A].
+  - rewrite (local_handles_kinds predict Hi _ p (QS_nplayers _ _ _ _ _ HQS0) (QS_nplayers _ _ _ _ _ HQS) Hk). exact Hr.
 Qed.
 
 (* the host half of C06 for a lockstep host: everything handed to the spectators is frame 0, 1, 2, ... each once,
